@@ -128,6 +128,17 @@ class Env(object):
     def info(self, key):
         return tinfo(self.types, key)
 
+    @property
+    def eps(self):
+        """Machine epsilon of the coarsest leaf-space dtype of the table
+        (field values carry no dtype of their own)."""
+        e = np.finfo(float).eps
+        for key in self.types:
+            ti = self.info(key)
+            if ti.cat == 'leaf':
+                e = max(e, float(np.finfo(np.dtype(ti.dtype)).eps))
+        return e
+
     def set(self, key):
         if key in self._sets:
             return self._sets[key]
@@ -403,11 +414,13 @@ def leaf_kinds(types, dom, ran, mode='c04'):
     out = []
     if D.cat == 'leaf' and same:
         out += ['identity', 'scaling', 'multiply', 'zero', 'ufunc', 'ufunc',
-                'power', 'constant', 'negative']
+                'ufunc', 'ufunc', 'power', 'power', 'constant', 'negative']
         if len(D.shape) >= 1:
             out += ['matrix', 'matrix']
-        if D.discr:
-            out += ['partial', 'laplacian']
+        if D.discr and max(D.shape) >= 3:
+            out.append('partial')
+        if D.discr and min(D.shape) >= 3:
+            out.append('laplacian')
         if D.cplx:
             out.append('cembed')
         else:
@@ -427,9 +440,13 @@ def leaf_kinds(types, dom, ran, mode='c04'):
         if ran == types[dom]['fkey']:
             out += ['inner', 'inner']
             if not c06:
-                out += ['l2sq', 'l1', 'l2', 'quadlin', 'constf', 'zerof']
-                if not D.cplx and len(D.shape) == 1:
-                    out.append('quad')
+                # LpNorm is not usable on complex spaces (its evaluation
+                # mixes the real |x| with the complex one())
+                out += ['l2sq', 'constf', 'zerof']
+                if not D.cplx:
+                    out += ['l1', 'l2', 'quadlin']
+                    if len(D.shape) == 1:
+                        out.append('quad')
         if not R.cplx and (ran == types[dom]['fkey'] or
                            types[ran]['kind'] == 'reals'):
             out += ['norm', 'dist']
@@ -470,7 +487,7 @@ def leaves(draw, types, dom, ran, mode='c04'):
         args['v'] = draw(values(types, ran))
     elif kind == 'constant':
         args['v'] = draw(values(types, ran))
-        args['zero'] = draw(st.integers(0, 5)) == 0
+        args['zero'] = draw(st.sampled_from([False] * 5 + [True]))
     elif kind == 'ufunc':
         names = list(UFUNCS_SMOOTH)
         if mode == 'c04':
@@ -481,7 +498,8 @@ def leaves(draw, types, dom, ran, mode='c04'):
     elif kind == 'fpower':
         args['p'] = draw(st.sampled_from([2, 3, 1]))
     elif kind == 'partial':
-        args['axis'] = draw(st.integers(0, len(D.shape) - 1))
+        args['axis'] = draw(st.sampled_from(
+            [i for i, n in enumerate(D.shape) if n >= 3]))
         args['method'] = draw(st.sampled_from(DIFF_METHODS))
         args['pad_mode'] = draw(st.sampled_from(DIFF_PADS))
         args['pad_const'] = 0.0
@@ -663,6 +681,10 @@ def trees(draw, types, dom, ran, depth, mode='c04', pairs=None,
     rules = ['leaf', 'sum', 'sum', 'diff', 'neg', 'pos', 'lscal', 'lscal',
              'rscal', 'rscal', 'rscal', 'div', 'pwprod', 'addscal']
     mids = [m for m in sorted(types) if (dom, m) in pairs and (m, ran) in pairs]
+    # prefer space-valued intermediate types (field mids funnel everything
+    # through the few field leaves)
+    mids = [m for m in mids for _ in range(
+        1 if tinfo(types, m).cat == 'field' else 4)]
     if mids:
         rules += ['comp'] * 4
     if dom_space:
@@ -681,8 +703,8 @@ def trees(draw, types, dom, ran, depth, mode='c04', pairs=None,
 
     def sub(d=dom, r=ran, dep=None):
         dep = depth - 1 if dep is None else dep
-        return draw(trees(types, d, r, draw(st.integers(0, dep)), mode,
-                          pairs))
+        return draw(trees(types, d, r, draw(st.sampled_from(
+            list(range(dep + 1)))), mode, pairs))
 
     def sub_full(d=dom, r=ran):
         return draw(trees(types, d, r, depth - 1, mode, pairs))
@@ -723,8 +745,19 @@ def trees(draw, types, dom, ran, depth, mode='c04', pairs=None,
         return node
     if rule in ('rscal', 'div'):
         node['a'] = sub_full()
-        node['s'] = draw(scalars(tinfo(types, fkey_dom).cplx,
-                                 nonzero=(rule == 'div')))
+        scplx = tinfo(types, fkey_dom).cplx
+        if scplx and not tinfo(types, fkey_ran).cplx and \
+                true_linear(node['a']):
+            # operators C^n -> R^n flagged linear are only real-linear; ODL
+            # rewrites A*a -> a*A for them, which needs a real scalar
+            scplx = False
+        classes = None
+        if D.cat == 'field' and node['a']['fk'] == 'func':
+            # known finding C04-K3: f*0 on field domains; excluded by
+            # construction (its regress replay keeps it visible)
+            classes = ['one', 'mone', 'generic', 'generic']
+        node['s'] = draw(scalars(scplx, nonzero=(rule == 'div'),
+                                 classes=classes))
         hows = ['op', 'op', 'op']
         if rule == 'rscal':
             hows.append('ctor')
@@ -744,6 +777,10 @@ def trees(draw, types, dom, ran, depth, mode='c04', pairs=None,
         hows = ['mul', 'mul', 'matmul', 'ctor']
         if tinfo(types, mid).cat != 'field':
             hows.append('ctor_tmp')
+        if node['a']['fk'] == 'func' and fkey_dom != ran:
+            # Functional ranges are by design the field of the *domain*;
+            # f o A across fields is built as a plain OperatorComp
+            hows = ['ctor']
         node['how'] = draw(st.sampled_from(hows))
         node['fk'] = 'func' if (node['a']['fk'] == 'func' and
                                 node['how'] in ('mul', 'matmul')) else 'op'
@@ -814,16 +851,102 @@ class BNode(object):
         self.shortcut = None
 
 
+class BuildFailure(Exception):
+    """Constructing one node failed.  ``where`` is 'odl' if the exception
+    came out of ODL (or out of Python's operator dispatch because every
+    overload refused the operands), 'harness' otherwise."""
+
+    def __init__(self, site, exc, where, pattern='', node=None):
+        super(BuildFailure, self).__init__('{}: {!r}'.format(pattern, exc))
+        self.site, self.exc, self.where = site, exc, where
+        self.pattern, self.node = pattern, node
+
+
+def node_pattern(b):
+    """Root-cause pattern of a node: constructor, syntax, operand classes."""
+    node = b.node
+    if node['op'] == 'leaf':
+        return 'leaf:' + node['kind']
+    kids = ','.join('0' if k is None else type(k.obj).__name__
+                    for k in b.kids)
+    return '{}:{}({})'.format(node['op'], node.get('how', 'op'), kids)
+
+
+_OVERLOAD = {
+    ('sum', 'op'): '__add__(Operator)', ('diff', 'op'): '__sub__(Operator)',
+    ('neg', 'op'): '__neg__', ('pos', 'op'): '__pos__',
+    ('lscal', 'op'): '__rmul__(scalar)', ('rscal', 'op'): '__mul__(scalar)',
+    ('div', 'op'): '__truediv__(scalar)',
+    ('comp', 'mul'): '__mul__(Operator)',
+    ('comp', 'matmul'): '__matmul__(Operator)',
+    ('rvec', 'op'): '__mul__(vector)', ('lvec', 'op'): '__rmul__(vector)',
+    ('flvec', 'op'): '__rmul__(vector)',
+    ('addvec', 'A+v'): '__add__(vector)', ('addvec', 'v+A'): '__radd__(vector)',
+    ('addvec', 'A-v'): '__sub__(vector)', ('addvec', 'v-A'): '__rsub__(vector)',
+    ('addscal', 'A+c'): '__add__(scalar)',
+    ('addscal', 'c+A'): '__radd__(scalar)',
+    ('addscal', 'A-c'): '__sub__(scalar)',
+    ('addscal', 'c-A'): '__rsub__(scalar)',
+    ('pow', 'op'): '__pow__', ('translated', 'op'): 'translated',
+}
+_CTOR_CLASS = {'sum': 'OperatorSum', 'pwprod': 'OperatorPointwiseProduct',
+               'lscal': 'OperatorLeftScalarMult',
+               'rscal': 'OperatorRightScalarMult', 'comp': 'OperatorComp',
+               'rvec': 'OperatorRightVectorMult',
+               'lvec': 'OperatorLeftVectorMult',
+               'flvec': 'FunctionalLeftVectorMult',
+               'addvec': 'OperatorVectorSum'}
+
+
+def node_site(b):
+    """Dispatch site that produced the node's object -- the root-cause key
+    of a failure of this node: ``<class of first operand>.<overload>`` for
+    operator syntax (the overload that runs is chosen by that class), the
+    expression class for explicit constructor calls, the kind for leaves."""
+    node = b.node
+    op, how = node['op'], node.get('how', 'op')
+    if op == 'leaf':
+        return 'leaf:' + node['kind']
+    first = type(b.kids[0].obj).__name__ if b.kids and b.kids[0] is not None \
+        else '0'
+    meth = _OVERLOAD.get((op, how))
+    if meth is not None:
+        return '{}.{}'.format(first, meth)
+    if how == 'fprod':
+        return 'FunctionalProduct(ctor)'
+    if op in _CTOR_CLASS:
+        return '{}({})({})'.format(_CTOR_CLASS[op], how, first)
+    return '{}:{}({})'.format(op, how, first)
+
+
 def build(env, node):
     """Tree -> BNode tree with ODL operators (documented API only)."""
+    from .core import crash_signature
     b = BNode(node)
+    for k in ('a', 'b'):
+        if k in node:
+            b.kids.append(build(env, node[k]))
+    for k in node.get('kids', []):
+        b.kids.append(None if k is None else build(env, k))
+    try:
+        _build_node(env, b)
+    except (BuildFailure, HarnessError):
+        raise
+    except Exception as e:  # noqa
+        where, _ = crash_signature('X', e)
+        if isinstance(e, TypeError) and \
+                str(e).startswith('unsupported operand type'):
+            where = 'odl'
+        raise BuildFailure(node_site(b), e, where, node_pattern(b), node)
+    return b
+
+
+def _build_node(env, b):
+    node = b.node
     op = node['op']
     if op == 'leaf':
         b.obj = build_leaf(env, node)
         return b
-    for k in ('a', 'b'):
-        if k in node:
-            b.kids.append(build(env, node[k]))
     A = b.kids[0].obj
     B = b.kids[1].obj if len(b.kids) > 1 else None
     how = node.get('how', 'op')
@@ -925,6 +1048,8 @@ def walk(b):
     """All BNodes, parents before children."""
     yield b
     for k in b.kids:
+        if k is None:
+            continue
         for x in walk(k):
             yield x
 
@@ -999,7 +1124,7 @@ class Interp(object):
                 sg = self.rng.randint(0, 2, size=p.shape) * 2 - 1
                 return (p * (1 + self.noise * eps * sg)).astype(p.dtype)
             sg = self.rng.randint(0, 2) * 2 - 1
-            return p * (1 + self.noise * np.finfo(float).eps * sg)
+            return p * (1 + self.noise * self.env.eps * sg)
         return vmap(f, val)
 
     def ev(self, b, x):
